@@ -26,3 +26,90 @@ PLAN["C01"] = {
     "require": {"all": ["expect_included", "nonemptyA_not_included", "nonemptyA_included", "class_A_nullary_B_lacks", "class_A_state_without_rules",
                         "class_useless_states", "class_binary_both", "unimpl_calls"]},
 }
+
+PLAN["C02"] = {
+    "level": "exploration",
+    "rule": "every ordered pair (A,B) of TA(n,Sigma,<=k per side) with overlapping state numbers: Union (no maps / empty maps / lhs map pre-filled by an earlier Union / stale "
+            "entries), UnionDisjointStates (B shifted apart), Intersection and IntersectionBU (with and without product map); result language vs reference union/product, "
+            "result rule-for-rule equal to the renamed union, every result state named by the maps and (intersection) L(result,s)=L(A,p)&L(B,q), operands re-read unchanged; "
+            "non-trivial = both operands non-empty languages and A != B",
+    "assumptions": COMMON_ASSUMPTIONS + ["the product map of Intersection is documented [out]: pre-filled product maps are not part of the domain"],
+    "claim": "All pairs of the finite domains through every union/intersection entry point and map-passing mode against the reference; exhaustive within bounds.",
+    "technique": "bounded exhaustive enumeration of automata pairs x entry points x map modes against reference union/product",
+    "quick": [("rel", "c02.n2s3k2"), ("rel", "c02.n2s2k3")],
+    "thorough": [("rel", "c02.n2s3k3"), ("rel", "c02.n2s2k4"), ("rel", "c02.n3s3pk4")],
+    "require": {"all": ["intersection_nonempty", "intersection_empty", "class_empty_operand", "class_useless_states"]},
+}
+
+PLAN["C03"] = {
+    "level": "exploration",
+    "rule": "every automaton of TA(n,Sigma,<=k rules, any final set): RemoveUnreachableStates (with/without map), RemoveUselessStates, IsLangEmpty vs reference "
+            "(language equality, every remaining state reachable top-down / useful in the result, emptiness exact, operand unchanged); non-trivial = non-empty language with at least one useless state",
+    "assumptions": COMMON_ASSUMPTIONS,
+    "claim": "Every automaton of the finite domains; the size-shortcut shape (|reachable| = |rule owners| with different sets) is a mandatory outcome class.",
+    "technique": "bounded exhaustive enumeration of automata against reference reachability/productivity fixpoints",
+    "quick": [("rel", "c03.n3s3pk4"), ("rel", "c03.n2s3k6")],
+    "thorough": [("rel", "c03.n3s3pk5"), ("rel", "c03.n2s3k7"), ("rel", "c03.n4agk4")],
+    "require": {"all": ["class_equal_counts_different_sets", "class_unreachable_rule_owner", "class_final_without_rules", "class_no_final", "lang_empty", "lang_nonempty"]},
+}
+
+PLAN["C04"] = {
+    "level": "exploration",
+    "rule": "every automaton of TA(n,Sigma,<=k) whose used states are exactly 0..n-1, under all n! renumberings and 2 rule insertion orders: downward simulation (all) and "
+            "upward simulation (automata without useless states) compared entry by entry with the greatest fixpoint computed from the definition; non-trivial = at least 2 rules",
+    "assumptions": COMMON_ASSUMPTIONS,
+    "claim": "Every dense automaton of the finite domains under every bijective renumbering; relation compared entry-wise with the definition.",
+    "technique": "bounded exhaustive enumeration of automata x all state bijections x insertion orders against definitional greatest-fixpoint simulations",
+    "quick": [("rel", "c04.n2s3k5"), ("rel", "c04.n3s3pk4")],
+    "thorough": [("rel", "c04.n2s3k6"), ("rel", "c04.n3s3pk5")],
+    "require": {"all": ["trimmed", "not_trimmed", "up_nonidentity", "down_nonidentity"]},
+}
+
+PLAN["C05"] = {
+    "level": "exploration",
+    "rule": "every automaton of TA(n,Sigma,<=k) under 3 numberings (dense, sparse 7q+3, descending): Reduce() vs reference (language equal, #states and #rules not larger, result is "
+            "an onto homomorphic image: some map of A's states onto the result's states carries finals and rules of the result), operand unchanged; non-trivial = non-empty language and >=2 rules",
+    "assumptions": COMMON_ASSUMPTIONS,
+    "claim": "Every automaton of the finite domains under three numberings.",
+    "technique": "bounded exhaustive enumeration of automata x numberings against reference language equality and image search",
+    "quick": [("rel", "c05.n3s3pk4"), ("rel", "c05.n2s3k6")],
+    "thorough": [("rel", "c05.n3s3pk5"), ("rel", "c05.n2s3k7")],
+    "require": {"all": ["reduced_states", "class_useless_states", "lang_nonempty"]},
+}
+
+PLAN["C06"] = {
+    "level": "exploration",
+    "rule": "every automaton (states 0..m-1) of TA(2..3,S,<=k) for S in {a:0},{a:0,b:0},{a:0,f:1},{a:0,b:0,g:2},{a:0,b:0,f:1,g:2},{a:0,g:2}, attached to a PRIVATE OnTheFlyAlphabet "
+            "in which all symbols of S are registered in every possible order (so unused registered symbols occur): Complement() vs reference (product with A empty, union with A universal over S by "
+            "subset construction, no symbol outside S / wrong rank, direct membership of all trees up to height 2); non-trivial = A neither empty nor universal",
+    "assumptions": COMMON_ASSUMPTIONS + ["states are numbered 0..m-1 as the library's loaders produce them; a sparse-numbering sub-check is run separately"],
+    "claim": "Every automaton of the finite domains over every small ranked alphabet and registration order.",
+    "technique": "bounded exhaustive enumeration of automata x alphabets x registration orders against reference product-emptiness and universality",
+    "quick": [("rel", "c06.n2sAk2"), ("rel", "c06.n2sLk4"), ("rel", "c06.n2sAFk4"), ("rel", "c06.n2s2k4"), ("rel", "c06.n2s3k3"), ("rel", "c06.sparse.n2s2k3")],
+    "thorough": [("rel", "c06.n2sAk2"), ("rel", "c06.n2sLk4"), ("rel", "c06.n2sAFk4"), ("rel", "c06.n2s2k5"), ("rel", "c06.n2s3k4"), ("rel", "c06.n3agk3"), ("rel", "c06.sparse.n2s2k3")],
+    "require": {"all": ["A_universal", "A_not_universal", "A_empty", "class_unused_registered_symbol"]},
+}
+
+PLAN["C14"] = {
+    "level": "exploration",
+    "rule": "every automaton of TA(n,Sigma,<=k) x every state map {0..n-1}->{0..n-1} plus 3 sparse/offset maps, through ReindexStates(weak translator pre-filled / allocating), "
+            "ReindexStates(functor, with/without finals), ReindexStates(dst empty / pre-filled), CollapseStates, and x every symbol map Sigma->Sigma+1 fresh for TranslateSymbols: "
+            "result finals and rules must equal the image sets exactly, each rule yielded once, translators hold exactly the visited states, operand unchanged; non-trivial = >=2 rules",
+    "assumptions": COMMON_ASSUMPTIONS,
+    "claim": "Every automaton x every state map x every symbol map of the finite domains, exact set equality with the image.",
+    "technique": "bounded exhaustive enumeration of automata x all state maps x all symbol maps against the image computed by definition",
+    "quick": [("rel", "c14.n3s3pk3")],
+    "thorough": [("rel", "c14.n3s3pk4"), ("rel", "c14.n2s3k5")],
+    "require": {"all": ["maps_injective", "maps_merging", "symbol_maps"]},
+}
+
+PLAN["C15"] = {
+    "level": "exploration",
+    "rule": "every automaton of TA(n,Sigma,<=k): GetCandidateTree() vs reference (L(W) subset of L(A); W empty only if A empty; operand unchanged); non-trivial = non-empty language",
+    "assumptions": COMMON_ASSUMPTIONS,
+    "claim": "Every automaton of the finite domains; leaf-only languages, languages without accepted leaf and unproductive final states are mandatory outcome classes.",
+    "technique": "bounded exhaustive enumeration of automata against reference inclusion/emptiness",
+    "quick": [("rel", "c15.n3s3pk4"), ("rel", "c15.n2s3k6")],
+    "thorough": [("rel", "c15.n3s3pk5"), ("rel", "c15.n2s3k7"), ("rel", "c15.n4agk4")],
+    "require": {"all": ["class_leaf_only_language", "class_no_leaf_accepted", "class_unproductive_final", "lang_empty"]},
+}
